@@ -1398,3 +1398,59 @@ def socket_drain(cx, iid):
                             w = b.reach_exit_avoiding(Loc(y, -1), [l for l, _ in hf], exits=recvs)
                             if w is not None:
                                 inst.violation(b.path, "parsed frame dropped", "a datagram that parses as a frame can be skipped without being handed to handle_frame")
+
+
+def emitter_wiring(cx, iid):
+    """T7 + T4: the frame emitters start from exactly what their caller hands them, and hand it on unchanged:
+    {Ack,Data}FrameEmitter::new store the credit and (for acks) the two window bases they were given; emit_ack_frames
+    gives the ack emitter the receiver's frame-window base, the receiver's packet-window base and the connection's
+    current credit, in that order; and both places that start an ack frame build it from (frame base, packet base) in
+    that order.  The two bases are both u32: swapped, the peer reads a packet id as its frame-window base and refuses
+    it, so a sender whose whole window was lost is never told where the receiver stands; an emitter that starts from
+    max(credit, 0) sends acknowledgements while the leaky bucket is in deficit."""
+    R = cx.R
+    want = {
+        ("half_connection::emit::AckFrameEmitter::<F>::new", "AckFrameEmitter"): {"frame_window_base_id": "arg1", "packet_window_base_id": "arg2", "flush_alloc": "arg3", "in_progress_frame": "None{}"},
+        ("half_connection::emit::DataFrameEmitter::<'a, F>::new", "DataFrameEmitter"): {"now_ms": "arg1", "flush_alloc": "arg3", "in_progress_frame": "None{}"},
+    }
+    with cx.instance(iid, "T7 SHAPE + T4 SIBLING", "emitters store the credit and window bases they are given; ack frames are built from (frame base, packet base) at every site", floor=5) as inst:
+        for (fn, adt), fields in want.items():
+            try:
+                b, loc, got = _ctor(R, fn, adt)
+            except Exception:
+                inst.violation(fn, adt + " constructor", "%s not found (anchor)" % fn)
+                continue
+            if loc is None:
+                inst.violation(b.path, adt + " literal", "%s no longer builds a %s literal (anchor)" % (fn, adt))
+                continue
+            inst.site(b, loc, "%s{%s}" % (adt, ", ".join("%s: %s" % (k, got.get(k)) for k in fields)))
+            for k, v in fields.items():
+                if got.get(k) != v:
+                    inst.violation(b.path, "%s.%s" % (adt, k), "%s::new initialises %s to `%s`, expected `%s`" % (adt, k, str(got.get(k))[:80], v), at=b.span_at(loc))
+        n = 0
+        for b in R.all_bodies():
+            for loc, t in b.calls("AckFrameBuilder::new"):
+                e = b.call_expr(t)
+                a = [show(x) for x in e[2]]
+                n += 1
+                inst.site(b, loc, "AckFrameBuilder::new(%s)" % ", ".join(a)[:100])
+                if not (len(a) == 2 and re.fullmatch(r"arg1\.frame_window_base_id", a[0]) and re.fullmatch(r"arg1\.packet_window_base_id", a[1])):
+                    inst.violation(b.path, "ack frame bases", "an ack frame is started as AckFrameBuilder::new(%s): expected (frame window base, packet window base)" % ", ".join(a)[:120], at=b.span_at(loc))
+        if n < 2:
+            inst.violation("half_connection::emit", "AckFrameBuilder::new", "expected the two ack-frame starts of AckFrameEmitter (push_dud, push) (anchor)")
+        b = R.body("HalfConnection::emit_ack_frames")
+        cs = list(b.calls("AckFrameEmitter::<F>::new")) or list(b.calls("AckFrameEmitter::new"))
+        if len(cs) != 1:
+            inst.violation(b.path, "AckFrameEmitter::new", "emit_ack_frames should create exactly one ack emitter (found %d)" % len(cs))
+        else:
+            loc, t = cs[0]
+            a = [show(x) for x in b.call_expr(t)[2]]
+            inst.site(b, loc, "AckFrameEmitter::new(%s)" % ", ".join(a[:3])[:140])
+            if not (len(a) == 4 and a[0] == "FrameAckQueue::base_id(arg1.frame_ack_queue)" and a[1] == "PacketReceiver::base_id(arg1.packet_receiver)" and a[2] == "arg1.flush_alloc"):
+                inst.violation(b.path, "ack emitter operands", "the ack emitter is created from (%s): expected (frame_ack_queue.base_id(), packet_receiver.base_id(), flush_alloc, callback)" % ", ".join(a[:3])[:160], at=b.span_at(loc))
+        for fn, want_fa in (("FrameAckQueue::base_id", "ReceiveWindow::base_id(arg1.receive_window)"), ("frame_ack_queue::ReceiveWindow::base_id", "arg1.base_id"), ("PacketReceiver::base_id", "arg1.base_id")):
+            gb = R.body(fn)
+            e = show(gb.local_expr(0))
+            inst.site(gb, None, "%s = %s" % (fn, e))
+            if e != want_fa:
+                inst.violation(gb.path, "base getter", "%s returns `%s`, expected `%s`" % (fn, e, want_fa))
